@@ -30,6 +30,15 @@ SEEDS = {
     "c18-2": ("C18", "an abort on physical line 0: the error record gets line number -1", ["C18", "C05"]),
     "c19-2": ("C19", "CsvPaths with a non-default delimiter/quotechar and a header cache populated by an earlier instance or process (cache read with the instance dialect)", ["C19"]),
     "c20-2": ("C20", "a header reference to the FIRST header (index 0) of the referenced csvpath raises instead of returning the list", ["C20"]),
+    "c02-3": ("C02", "a lone degenerate range [k-k] with k>=1 (every record before k is scanned too)", ["C02"]),
+    "c03-3": ("C03", "pop() when the value on top of the stack also occurs lower in it (the first equal element is removed instead of the top)", ["C03"]),
+    "c04-3": ("C04", "a reused CsvPaths instance: fail_all() executed in an earlier run, later run via a by_line method or next_paths (stale _fail_all)", ["C04"]),
+    "c05-3": ("C05", "an error on the first physical line of the file is collected with line number -1", ["C05"]),
+    "c06-3": ("C06", "a header name that occurs twice (also after cleaning): '#name' resolves to the last column carrying it", ["C06"]),
+    "c07-3": ("C07", "the collect(...) projection function: lines are narrowed only when CsvPath.collect() drives the run", ["C07"]),
+    "c08-3": ("C08", "breadth-first run of a member with return-mode: no-matches in its comment (forced back to matches)", ["C08"]),
+    "c09-3": ("C09", "a member whose valid and completed differ (stops without failing / fails but runs to the end): manifest completed copies valid", ["C09"]),
+    "c10-3": ("C10", "a reused instance whose later run starts in a later second (named after its first run's second), with another instance's run in between", ["C10"]),
     "c02-1": ("C02", "lone reversed range whose low bound is 0 ([3-0]) with record 0 non-blank and a later non-blank record in range", ["C02"]),
     "c03-1": ("C03", "first() on a value first seen on line 0 that re-appears later; scan must include line 0", ["C03"]),
     "c05-1": ("C05", "validation-mode whose FIRST token is no-stop, a non-raising error, and at least one more line after it", ["C05"]),
